@@ -144,12 +144,14 @@ def explore_handlers(r, rnd, n, stdlib):
                         fail("document symbols are not exactly the project fixture definitions of the file", file=q[len(root) + 1:], got=got_ds, expected=want_ds)
                     if q == third_file and (srv.code_lens(q) or []):
                         fail("code lenses are shown for third-party definitions", file=q[len(root) + 1:])
+                uses_by_def = collections.defaultdict(list)
                 for q in sorted(project):
                     text = project[q]
                     uses = usage_positions(text, stdlib)
                     if not uses:
                         continue
-                    srv.open(q, text)
+                    # the documents are NOT opened: the scan has indexed them, and a didOpen would re-register the file's
+                    # definitions last, which moves what a conftest-imported name denotes (C07's listed finding)
                     by_end, plain_hover = {}, {}
                     own_def_lines = collections.defaultdict(set)
                     for (dn, dl, _ds, _de) in def_positions(text, stdlib):
@@ -170,6 +172,8 @@ def explore_handlers(r, rnd, n, stdlib):
                                 continue
                             d = cands[0]
                         by_end[(l0, e)] = d
+                        if d is not None:
+                            uses_by_def[(d["path"], d["line"], d["start"])].append((q, l0, s))
                         want = doc_text(d, root) if d else None
                         got = hov["contents"]["value"] if hov else None
                         if want != got:
@@ -239,6 +243,19 @@ def explore_handlers(r, rnd, n, stdlib):
                         if title != ("1 usage" if nref == 1 else "%d usages" % nref):
                             fail("a code lens count differs from the number of references the server lists for that definition",
                                  at={"file": os.path.relpath(q, root), "line": args[1], "character": args[2]}, title=title, references=nref)
+                # find-references is the exact inverse of go-to-definition, at the protocol level: asked on a
+                # definition's name, the server lists exactly the usages whose go-to-definition landed on it, once each
+                for (dp, dl, dc), us in sorted(uses_by_def.items()):
+                    if "site-packages" in dp:
+                        continue
+                    refs = as_list(srv.references(dp, dl - 1, dc, include_declaration=False))
+                    got = sorted((lsp.uri_to_path(x["uri"]), x["range"]["start"]["line"], x["range"]["start"]["character"]) for x in refs
+                                 if not (lsp.uri_to_path(x["uri"]) == dp and x["range"]["start"]["line"] == dl - 1 and x["range"]["start"]["character"] == dc))
+                    stats["references_inverse"] += 1
+                    if got != sorted(us):
+                        fail("the references of a definition are not exactly the usages whose go-to-definition lands on it",
+                             definition=[dp[len(root) + 1:], dl, dc], listed=[[a[len(root) + 1:], b, c] for a, b, c in got],
+                             usages_landing_on_it=[[a[len(root) + 1:], b, c] for a, b, c in sorted(us)])
             finally:
                 try:
                     srv.shutdown()
